@@ -325,13 +325,15 @@ class Gen:
                 groups = r.randint(2, 3)
                 cuts = sorted(r.randint(0, n) for _ in range(groups - 1))
                 st["split"] = [b - a for a, b in zip([0] + cuts, cuts + [n])]
+                st["touch"] = r.random() < 0.5
             return st
         if how == "inherit":
             n = len(fields)
             groups = r.randint(2, 4)
             cuts = sorted(r.randint(0, n) for _ in range(groups - 1))
             split = [b - a for a, b in zip([0] + cuts, cuts + [n])]
-            return {"how": "inherit", "split": split}
+            # touch: every class of the chain is serialised (count_bits) as soon as it is declared, base first
+            return {"how": "inherit", "split": split, "touch": r.random() < 0.5}
         return {"how": how}
 
     def top(self):
@@ -445,6 +447,12 @@ CORPUS = [
     R([["bit"]]), R([["bit"], ["bit"]], how="inherit", split=[1, 1]),
     R([["bit"], ["bit"], ["s", 7]], how="inherit", split=[1, 1, 0, 1]),
     R([["bit"], ["bv", 15]], how="inherit", split=[1, 0, 1]),
+    # the base record is serialised before the derived one is first used
+    R([["bit"], ["bv", 3]], how="inherit", split=[1, 1], touch=True),
+    R([["u", 2], ["bit"], ["s", 3]], how="inherit", split=[1, 1, 1], touch=True),
+    ["sarr", R([["bv", 2], ["bit"], ["u", 2]], how="inherit", split=[2, 1], touch=True), 2],
+    R([R([["bit"], ["u", 2]], how="inherit", split=[1, 1], touch=True), ["bit"]], how="class"),
+    R([["bv", 4], ["bit"], ["u", 4]], how="templ", w=4, split=[1, 2], touch=True),
     R([["bool"]]), R([["sarr", ["bit"], 4]]), R([["carr", ["bv", 4], 3]]),
     R([["bit"], ["bv", 4], ["u", 4], ["s", 4]], how="templ", w=4),
     R([R([["bit"], ["bv", 2], ["u", 2], ["s", 2]], how="templ", w=2),
@@ -690,6 +698,10 @@ def run(ck: common.Check, replay=None):
         b = g.bf_case(invalid=(i % 6 == 5))
         b["id"] = i
         bfs.append(b)
+        if not b["invalid"] and i % 2 == 0:
+            # the same BitField owning its storage (Variable[B](bits)) instead of referring to an existing vector:
+            # nested sub-BitFields must still alias the bits of the enclosing object
+            bfs.append(dict(b, owned=True, id=10000 + i))
     sers = []
     if replay is not None and "serialized" in replay:
         sers = [replay["serialized"]]
